@@ -20,6 +20,9 @@ CHECKS = {
     "C04": dict(ref="6/C04", tech="TLC on the slot-allocation transcription (CompilerSlots.tla: CellsDisjoint, with the pre-repair variant as negative control) + TLC-generated lattices replayed on the real library; recorded layouts and read addresses (hook H2) validated by TLC (LayoutOK / ReadsRowOK)",
                 text="Every reduced lattice over <=5 classes (thorough: 6) x placement of up to 3-4 one-parameter methods (+ random multi-methods), registered with complete and with direct-only base lists: the installed layout must give every acceptable (class, method, parameter) its own cell inside the dispatch data, outside every dispatch table; every address resolve() reads must be that cell or inside the method's own table. Thorough re-executes under AddressSanitizer.",
                 note="read addresses are reported by hook H2 (add-only call sites in core.hpp); the policy's id->vptr lookup tables are covered by C05/C15"),
+    "C05": dict(ref="6/C05", tech="TLC on Hash.tla (W-bit model of the multiplier search: every multiplier sequence, four table sizes, budget exhaustion, max index persisting across updates; invariant ContractHolds) + seeded id-family histories executed on the real hashed policies, recorded hashes validated by TLC against the contract (TraceHash.tla)",
+                text="Histories of 1-6 updates with growing and shrinking id sets drawn from six id families (0..120 ids, thorough 400) under fast / checked x direct / indirect policies and search budgets 0,1,2,3,5 (hook H1): after each update every registered id must hash to its own in-range index holding its class's pointer, or the update must report a hash search error; under checked policies ~15,000 unregistered ids per quick run (neighbours, bit flips, removed ids, random) must each be reported as unknown with that id.",
+                note="real 64-bit arithmetic is not modelled in TLC; it is covered by contract validation of recorded executions"),
     "C07": dict(ref="6/C07", tech="TLC on Yomm2MC (histories over pools; FreshEquivalence, TypeOK) generating every history up to the bound and random simulations; histories replayed on the real library, every post-update observation validated by TLC against the oracle on the current catalogs",
                 text="Every history of <=5 operations (thorough: 6) over a pool of class records, methods and definitions, TLC-simulated histories of 15 operations and guided random histories of up to 60 operations on random registries are replayed under eager custom, std, projected and deferred type ids, with and without hash; after every update (and after a second, change-free update) all outcome tables and next slots must equal the oracle evaluated on the catalogs as they are then.",
                 note="registration objects' destructors are replaced by direct catalog removal; the dlopen/dlclose scenario is not built"),
@@ -38,6 +41,9 @@ CHECKS = {
     "C08": dict(ref="6/C08", tech="TLC: PresentationInvariant over every legal presentation (GenLat.tla) and CellsDisjoint (CompilerSlots.tla); every presentation of every graph <=4 classes (thorough: 5) replayed on the real library, tables/next/layout validated by TLC against the closure of the listed relation",
                 text="All 1,088 (graph, listed-bases) presentations over <=4 classes (thorough: 32,768 over 5), each also split over several records, duplicated and reordered, with a probe method on every class and a random multi-method: outcome tables over all acceptable tuples, next targets and slot layout must be those of the closure of the listed relation.",
                 note="record splitting / duplication / ordering is randomized per presentation, not exhaustive"),
+    "C18": dict(ref="6/C18", tech="TLC on StaticList.tla (pointer-level transcription of push_back / remove / clear; refinement to a sequence; complete state space over 6 nodes under a VIEW hiding the history) + every operation sequence up to the bound replayed on the real static_list and on the library's registration objects, validated by TLC (TraceStaticList.tla)",
+                text="The refinement invariants hold on the complete reachable state space for 6 nodes (any history length). Every sequence of <=6 operations over 3 nodes (thorough: <=7 over 4, 78,125 sequences) and random sequences of 50..3000 operations over 8 nodes are executed on an instrumented node type (links compared) and on class_declaration / method / definition_info objects with constructor- and destructor-driven registration; iteration order, size(), empty() after every operation must equal the specification.",
+                note="nodes live in zero-initialised storage, like the static objects the library is used with"),
     "C17": dict(ref="6/C17", tech="TLC trace validation of update reports against HasGap/HasAmbiguity over all and over concrete-only tuples (ReportOK in Yomm2.tla)",
                 text="Every registry of the bounded universes x assignments of abstract flags (all 2^N for N<=3; thorough: all) is updated and the returned report compared with an enumeration of all class tuples by the oracle; cells is compared with the number of multi-method cells the compiler object holds.",
                 note="iff-content of the report only (counts are not compared, the statement does not define them)"),
